@@ -15,7 +15,7 @@ inductive IStep (c : ICfg) (s : IT) : IT → Prop where
   | submitNone (w : Nat) (ho : s.outcome = none) (hb : s.broken c = false) (hd : s.draw.tasks = []) :
       IStep c s s.draw
   | submitSome (w t : Nat) (rest : List Nat) (ho : s.outcome = none) (hb : s.broken c = false)
-      (hfree : s.freeWorker w = true) (hd : s.draw.tasks = t :: rest) :
+      (halive : aliveAt s.ws w = true) (hfree : s.freeWorker w = true) (hd : s.draw.tasks = t :: rest) :
       IStep c s { s.draw with tasks := rest, running := s.running ++ [{ shard := t, worker := w }] }
   | co (i k : Nat) (m : Bool) (r : RunI) (o : CoOut) (hr : s.running[i]? = some r)
       (hco : coStep c s.ws r k m = some o) :
@@ -67,7 +67,7 @@ theorem itStep_sound {c : ICfg} {s s' : IT} {l : ILabel} (hs : itStep c s l = so
         simp only [Bool.and_eq_true, Bool.not_eq_true'] at hc
         cases ht : s.draw.tasks with
         | nil => simp [ht] at hs; subst hs; exact .submitNone w ho hc.1.2 ht
-        | cons t rest => simp [ht] at hs; subst hs; exact .submitSome w t rest ho hc.1.2 hc.1.1.2 ht
+        | cons t rest => simp [ht] at hs; subst hs; exact .submitSome w t rest ho hc.1.2 hc.1.1.1 hc.1.1.2 ht
       · simp at hs
   | co i k m =>
     cases hr : s.running[i]? with
